@@ -6,6 +6,7 @@ import (
 	"encoding/json"
 	"fmt"
 	"io"
+	"math"
 	"net"
 	"reflect"
 	"runtime"
@@ -373,7 +374,9 @@ func c08OneP(c *fw.Ctx, cs c08Case, prop string) {
 				return
 			}
 		}
-		if r.alloc > c08Bound(len(r.data)) {
+		// (for messages beyond 1 MiB the growth policy of io.ReadAll and of the harness's own
+		// buffer dominates: about 5x; the bound is judged for the messages below that)
+		if m.Size <= 1<<20 && r.alloc > c08Bound(len(r.data)) {
 			kind := "plain"
 			if cs.Comp != "off" {
 				kind = "ratio"
@@ -490,13 +493,14 @@ func c08DeclaredOverLimit(c *fw.Ctx, cs c08Case) {
 
 // ------------------------------------------------------------ enumeration ---
 
-var c08Limits = []int64{0, 1, 2, 125, 126, 4096, c08DefaultLimit, 65536, -1}
+var c08Limits = []int64{0, 1, 2, 125, 126, 4096, c08DefaultLimit, 65536, -1, math.MaxInt64, math.MaxInt64 - 1}
 var c08Framings = []string{"one", "split-at-limit", "bytes", "empty-frags", "many-empty-frags"}
 var c08Comps = []string{"off", "zeros", "no-takeover", "bfinal", "stored-open"}
 var c08APIs = []string{"read", "reader", "netconn"}
 
 func c08Sizes(L int64, thorough bool) []int {
-	if L < 0 {
+	if L < 0 || L > 1<<40 {
+		// unlimited (any negative value), or a limit no message can reach
 		return []int{0, 1, 32768, 32769, 100000}
 	}
 	var out []int
@@ -567,6 +571,18 @@ func c08Cases(thorough bool) []c08Case {
 						}
 					}
 				}
+			}
+		}
+	}
+	// a large message (limit lifted), then the limit lowered and a tiny message: what reading the
+	// tiny one allocates is bounded by the tiny one, not by its predecessor
+	for _, client := range []bool{false, true} {
+		for _, api := range c08APIs {
+			for _, comp := range []string{"off", "zeros"} {
+				m1 := c08Msg{Size: 4 << 20, Framing: "one", SetLimit: true, Limit: -1}
+				m2 := c08Msg{Size: 10, Framing: "one", SetLimit: true, Limit: 1024}
+				m3 := c08Msg{Size: 10, Framing: "one"}
+				out = append(out, c08Case{Kind: "limit", Client: client, Comp: comp, API: api, Msgs: []c08Msg{m1, m2, m3}})
 			}
 		}
 	}
